@@ -100,8 +100,11 @@ Section Transition.
     | O => None
     | S k => fs <- slot_step f st ;; slots_loop k (fst fs) (snd fs) target
     end.
+  (* a single call advancing more than MAX_SLOTS_PER_CALL slots is outside the model (the pyspec would loop for years) *)
+  Definition MAX_SLOTS_PER_CALL : N := 1048576.
   Definition process_slots (f : fork) (st : BeaconState) (target : N) : option (fork * BeaconState) :=
     assert (slot st <? target) ;;
+    assert (target - slot st <=? MAX_SLOTS_PER_CALL) ;;
     slots_loop (N.to_nat (target - slot st)) f st target.
 
   Definition verify_block_signature (f : fork) (st : BeaconState) (signed_block : value) : bool :=
